@@ -32,7 +32,7 @@ def BOUNDS(tier):
 
 
 def REQUIRED_COVER(tier):
-    return {'uint:256', 'int:257', 'var_int:topbit', 'snake:multi', 'addr:anycast', 'addr:ext', 'seq:depth2', 'dict', 'string:utf8'}
+    return {'uint:256', 'int:257', 'var_int:topbit', 'snake:multi', 'addr:anycast', 'addr:ext', 'seq:depth2', 'dict', 'string:utf8', 'snake:long'}
 
 
 HASH32 = 'ed1691307050047117b998b561d8de82d31fbf84910ced6eb5fc92e7485ef8a7'
@@ -42,7 +42,16 @@ HASH32 = 'ed1691307050047117b998b561d8de82d31fbf84910ced6eb5fc92e7485ef8a7'
 def case_seq(rec, descs, sub='value'):
     rec.case(sub)
     try:
-        probs, cell = typed.run_sequence(descs)
+        if sub == 'snake-long':
+            # as in a user's program: under the interpreter's default recursion limit (a chain may be ~1000 cells long)
+            from .common import user_recursion_limit
+            try:
+                with user_recursion_limit():
+                    probs, cell = typed.run_sequence(descs)
+            except RecursionError:
+                probs, cell = [('snake', 'recursion', 'RecursionError under the default recursion limit (one frame per cell of the chain?)')], None
+        else:
+            probs, cell = typed.run_sequence(descs)
     except RBITS.RefRangeError as e:
         raise AssertionError(f'harness generated an invalid value {descs}: {e}')
     rec.trans(2 * len(descs) + 1)
@@ -178,6 +187,20 @@ def shard_snake(rec, lo, hi):
     rec.sample(['bits(offset 13)', 'snake(len = capacity + 128)'])
 
 
+def shard_snake_long(rec):
+    """snake strings "of any length": up to the longest chain the cell depth limit allows (head + 1023 continuation cells)"""
+    for cells in (100, 500, 900, 990, 1000, 1022, 1023):
+        for off, extra in ((0, 0), (0, 1), (8, 126), (1000, 5)):
+            head = (1023 - off) // 8
+            n = head + 127 * (cells - 1) + extra
+            pre = [['bits', ('10' * 512)[:off]]] if off else []
+            if extra and cells == 1023:
+                continue                    # one cell more than the depth limit allows
+            case_seq(rec, pre + [['snake_gen', n]], 'snake-long')
+            rec.nontriv(('snake-long', cells, off, extra))
+    rec.covered('snake:long')
+
+
 def shard_addr(rec):
     seed = rec.seed
     accs = [bytes(32).hex(), (b'\xff' * 32).hex(), HASH32, filler(seed, 'acc', 32).hex()]
@@ -289,6 +312,7 @@ def shards(tier, seed):
     for lo in range(0, 1024, 64):
         out.append({'fn': 'shard_snake', 'args': {'lo': lo, 'hi': min(1023, lo + 63)}, 'prio': 3})
     out.append({'fn': 'shard_addr', 'args': {}})
+    out.append({'fn': 'shard_snake_long', 'args': {}, 'prio': 2})
     depth = 3 if tier == 'quick' else 4
     for first in range(len(ALPHABET)):
         out.append({'fn': 'shard_sequences', 'args': {'first': first, 'depth': depth}, 'prio': 4})
